@@ -53,6 +53,8 @@ func (o mpOp) String() string {
 		return "initiate without a key"
 	case "recreate-bucket":
 		return "delete the bucket and create it again"
+	case "delete-bucket-refused":
+		return "delete the bucket (refused: not empty)"
 	}
 	return o.kind
 }
@@ -296,6 +298,10 @@ func (s *mpSys) Ops() []engine.Op {
 	if !s.w.Cfg.Kind.IsSingle() && len(s.m.Objects) == 0 && len(s.m.Uploads) > 0 && !s.recreated {
 		ops = append(ops, mpOp{kind: "recreate-bucket"})
 	}
+	// ... and a delete of the bucket that is refused (it holds an object) changes nothing
+	if !s.w.Cfg.Kind.IsSingle() && len(s.m.Objects) > 0 && len(s.m.Uploads) > 0 {
+		ops = append(ops, mpOp{kind: "delete-bucket-refused"})
+	}
 	// multipart requests whose upload id names no upload: empty, or in a pair the
 	// query parser cannot read (a bad escape, a raw ';'), or given twice
 	if s.m.Objects[s.u.keys[0]] != nil {
@@ -363,6 +369,12 @@ func (s *mpSys) apply(op engine.Op) (string, *engine.Violation) {
 		s.searchInits++
 		s.m.Initiate(id, o.k, meta)
 		return "200", nil
+	case "delete-bucket-refused":
+		r := s.w.Do(drv.Req{Method: "DELETE", Path: "/" + s.bucket})
+		if r.Status != 409 || r.Panic != "" {
+			return respSig(r), &engine.Violation{Sig: "FOREIGN", Msg: "delete of a bucket that holds an object: " + r.Short()}
+		}
+		return respSig(r), nil // Check: objects, pending uploads and their parts are as they were
 	case "recreate-bucket":
 		r := s.w.Do(drv.Req{Method: "DELETE", Path: "/" + s.bucket})
 		if r.Status != 204 || r.Panic != "" {
